@@ -128,7 +128,7 @@ pub fn gen_api_plan(prop: Prop, seed: u64, tier: Tier, index: u64, batch_seed: u
             2 | 3 => ("bounded", *rng.pick(&[1usize, 2, 4, 16])),
             _ => ("sim", *rng.pick(&[0usize, 1, 2, 4, 16])),
         };
-        clients.push(json!({"minor": minor, "transport": transport, "capacity": capacity}));
+        clients.push(json!({"minor": minor, "transport": transport, "capacity": capacity, "flush_required": rng.chance(1, 3)}));
     }
 
     let w = weights(prop);
